@@ -316,6 +316,20 @@ func (e *ParserData) CounterPop() IntType {
 	return num
 }
 
+// parseFlagsKey 影响语法的全部开关(语法里的 &{...} 谓词所读的那些)，用作解析结果缓存的有效条件
+func (e *ParserData) parseFlagsKey() uint8 {
+	var k uint8
+	for i, on := range [...]bool{
+		e.Config.EnableDiceWoD, e.Config.EnableDiceCoC, e.Config.EnableDiceFate, e.Config.EnableDiceDoubleCross,
+		e.Config.DisableBitwiseOp, e.Config.DisableStmts, e.Config.DisableNDice,
+	} {
+		if on {
+			k |= 1 << uint(i)
+		}
+	}
+	return k
+}
+
 func (e *ParserData) FlagsPush() {
 	e.flagsStack = append(e.flagsStack, e.Config)
 }
